@@ -180,7 +180,7 @@ theorem break_race_witness :
       .start 1 .attempt, .step 1, .step 1, .step 1, .step 1, .step 1,
       .start 2 .attempt, .step 2, .step 2, .step 2, .step 2, .step 2, .step 2, .step 2, .step 2, .step 2,
       .step 2, .step 2,
-      .step 1, .step 1,
+      .step 1, .step 1, .step 1, .step 1,
       .start 3 .attempt, .step 3, .step 3, .step 3, .step 3]
     let s := (Sys.init cfg).run evs
     s.brokeAlive = false ∧ s.crashed 2 = false ∧ s.crashed 3 = false ∧
